@@ -199,7 +199,7 @@ void harness_parse(void)
 
 /* ------------------------------------------------------------------ setters
  * A URI is built with evhttp_uri_new + evhttp_uri_set_flags + the setters; which components are set, and
- * their contents (strings of at most VP_K* bytes, port any int in [-2, 70000]), are chosen by the solver.
+ * their contents (strings of at most VP_K* bytes, port any int in [VP_PORT_LO, VP_PORT_HI]), are chosen by the solver.
  * If every setter accepts:  evhttp_uri_join either refuses (NULL) or its output parses -- with the flags
  * given to evhttp_uri_set_flags -- into exactly the components that were set (a path that was never set,
  * or set to NULL, compares equal to the empty path: a parsed URI always has a path).
@@ -229,7 +229,13 @@ void harness_parse(void)
 #endif
 #define VP_KMAX 8
 #define VP_POS(k) ((k) > 0 ? (k) : 0)
+#ifndef VP_PORT_LO          /* port range; VP_PORT_HI < VP_PORT_LO: the port is never set */
+#define VP_PORT_LO -2
+#define VP_PORT_HI 70000
+#endif
+#ifndef VP_SJMAX           /* join buffer: longest possible output + NUL (props/C28.py computes the exact maximum) */
 #define VP_SJMAX (VP_POS(VP_KS) + VP_POS(VP_KU) + VP_POS(VP_KH) + VP_POS(VP_KX) + VP_POS(VP_KP) + VP_POS(VP_KQ) + VP_POS(VP_KF) + 22)
+#endif
 
 /* draws "set this component?" and a C string of at most k bytes; returns NULL when not set */
 static const char *vp_component(char *store, int k)
@@ -269,8 +275,12 @@ void harness_setters(void)
 	path = vp_component(cp, VP_KP);
 	query = vp_component(cq, VP_KQ);
 	fragment = vp_component(cf, VP_KF);
+#if VP_PORT_HI >= VP_PORT_LO
 	setport = vp_bool();
-	port = (int)vp_range(0, 70002) - 2;
+	port = (int)vp_range(0, VP_PORT_HI - VP_PORT_LO) + VP_PORT_LO;
+#else
+	setport = 0; port = -1;
+#endif
 
 	r = 0;
 	if (scheme && evhttp_uri_set_scheme(u, scheme) < 0) { r = -1; VP_ASSERT(evhttp_uri_get_scheme(u) == NULL, "C28: refused evhttp_uri_set_scheme changed the scheme"); }
@@ -311,8 +321,13 @@ void harness_setters(void)
 	VP_ASSERT(vp_opt_streq(evhttp_uri_get_path(u) ? evhttp_uri_get_path(u) : "", evhttp_uri_get_path(u2)), "C28: setters+join: path does not survive");
 	VP_ASSERT(vp_opt_streq(evhttp_uri_get_query(u), evhttp_uri_get_query(u2)), "C28: setters+join: query does not survive");
 	VP_ASSERT(vp_opt_streq(evhttp_uri_get_fragment(u), evhttp_uri_get_fragment(u2)), "C28: setters+join: fragment does not survive");
-	if (scheme && host && path && path[0] && query && fragment && port >= 0) VP_WITNESS("setters: full URI round trip");
+#ifdef VP_WIT_FULL
+	if (host && path && path[0] && port >= 0) VP_WITNESS("setters: authority + port + path round trip");
+#endif
+#ifdef VP_WIT_REL
 	if (!scheme && !host && !usock) VP_WITNESS("setters: relative reference round trip");
+#endif
+	VP_WITNESS("setters: joined URI parsed back");
 #if VP_KX >= 0
 	if (usock) VP_WITNESS("setters: unix socket URI round trip");
 #endif
